@@ -462,12 +462,15 @@ def _sc(off):
     return f
 
 
-_COMMON = {"consent": _set("consent", "urn:oasis:names:tc:SAML:2.0:consent:obtained")}
+_COMMON = {"consent": _set("consent", "urn:oasis:names:tc:SAML:2.0:consent:obtained"),
+           "extensions": _set("extensions", lambda r: samlp.Extensions(extension_elements=[
+               ExtensionElement("Note", namespace="urn:example:ext", attributes={"NotOnOrAfter": instant(NOW + YEARS10)}, text="n")]))}
 _RAC = _set("requested_authn_context", lambda r: samlp.RequestedAuthnContext(
     authn_context_class_ref=[saml.AuthnContextClassRef(text=_PASSWORD)], comparison="exact"))
 OPTS = {
     "logout": dict(_COMMON, **{
         "noa+3600": _noa(3600), "noa+2d": _noa(2 * 86400), "noa+10y": _noa(YEARS10), "noa-3600": _noa(-3600), "noa-2d": _noa(-2 * 86400),
+        "noa+1": _noa(1), "noa0": _noa(0),
         "reason-user": _set("reason", "urn:oasis:names:tc:SAML:2.0:logout:user"),
         "reason-admin": _set("reason", "urn:oasis:names:tc:SAML:2.0:logout:admin"),
         "sidx": _set("session_index", lambda r: [samlp.SessionIndex(text="s-1")]),
@@ -475,7 +478,9 @@ OPTS = {
     }),
     "authn": dict(_COMMON, **{
         "cond-open": _cond(-60, 3600), "cond-wide": _cond(-3 * 86400, YEARS10), "cond-past": _cond(-7200, -3600),
-        "cond-future": _cond(3600, 7200), "cond-noa": _cond(None, YEARS10),
+        "cond-future": _cond(3600, 7200), "cond-noa": _cond(None, YEARS10), "cond-nb": _cond(-YEARS10, None),
+        "acs-index": lambda o, r: (setattr(o, "assertion_consumer_service_url", None), setattr(o, "assertion_consumer_service_index", "1"),
+                                   setattr(o, "provider_name", "SP of " + r["marker"])),
         "subject": _set("subject", lambda r: saml.Subject(name_id=saml.NameID(text=r["marker"], format=saml.NAMEID_FORMAT_TRANSIENT))),
         "subject-sc+": _sc(YEARS10), "subject-sc-": _sc(-3600),
         "force": _set("force_authn", "true"), "force-false": _set("force_authn", "false"),
@@ -492,6 +497,8 @@ OPTS = {
     "attrq": dict(_COMMON, **{
         "attrs": _set("attribute", lambda r: [saml.Attribute(name="urn:oid:2.5.4.42", name_format=saml.NAME_FORMAT_URI, friendly_name="givenName"),
                                               saml.Attribute(name="urn:oid:2.5.4.4", name_format=saml.NAME_FORMAT_URI)]),
+        "attr-values": _set("attribute", lambda r: [saml.Attribute(name="urn:oid:2.5.4.42", name_format=saml.NAME_FORMAT_URI,
+                                                                   attribute_value=[saml.AttributeValue(text=r["marker"])])]),
         "sc+": _sc(YEARS10), "sc-": _sc(-3600),
     }),
     "authnq": dict(_COMMON, **{"sidx-attr": _set("session_index", "s-1"), "rac": _RAC, "sc+": _sc(YEARS10), "sc-": _sc(-3600)}),
@@ -617,6 +624,8 @@ def mutate(xml, name, r, donor=None, forged=None):
             for a, v in list(root.attrib.items()):
                 if r["marker"] in v:
                     root.set(a, v.replace(r["marker"], "mallory"))
+        if _ser(root) == _ser(ET.fromstring(xml)):
+            return None                                   # nothing to edit in this request
         return _ser(root), meta
     if name.startswith("edit-destination:"):
         root.set("Destination", name.split(":", 1)[1])
